@@ -198,6 +198,15 @@ func runC07(cfg *vh.Config) error {
 	distinct := vh.Distinct{}
 	caseNo := 0
 	var corpus []map[string]string // valid bundles, seeds of the mutation stream
+	// packages of the generated streams that also go through the lint / LSP entry points (stream 1d)
+	type lintJob struct {
+		Stream  string
+		Case    int
+		In      any
+		Files   map[string]string
+		Verdict string
+	}
+	var lintJobs []lintJob
 
 	// ---- stream 1: isolation matrix (run in full in both tiers; thorough adds the full product)
 	rIso := cfg.R.Fork("iso")
@@ -242,6 +251,9 @@ func runC07(cfg *vh.Config) error {
 			if len(corpus) < 400 {
 				corpus = append(corpus, content)
 			}
+		}
+		if pi%10 == int(cfg.Seed%10) {
+			lintJobs = append(lintJobs, lintJob{"iso", caseNo, in, content, o.Verdict})
 		}
 		cf.Terms = append(cf.Terms, fmt.Sprintf("CIso %s %q %s %s %s %q %s %s %d%%nat %s", p.Coq(), refFilePath, o.Verdict, coqStrList(o.Imports), coqStrList(o.Exts), o.PType, b(o.Repeated), b(o.Opt3), o.NErr, b(o.AllPos)))
 		res.Cases = append(res.Cases, vh.CaseRec{Case: caseNo, Stream: "iso", Input: in, Impl: o})
@@ -330,6 +342,7 @@ func runC07(cfg *vh.Config) error {
 					corpus = append(corpus, content)
 				}
 			}
+			lintJobs = append(lintJobs, lintJob{"abs", caseNo, in, content, o.Verdict})
 			if strings.HasPrefix(a.Kind, "CTopic") || strings.HasPrefix(a.Kind, "CShell") {
 				cf.Terms = append(cf.Terms, fmt.Sprintf("%s %s %s %s", a.Kind, o.Verdict, coqStrList(o.Imports), coqStrList(o.Exts)))
 			} else {
@@ -420,9 +433,48 @@ func runC07(cfg *vh.Config) error {
 				checkPositions(res, caseNo, "file", "file conversion error", o.Pos, fc.Files, mainFile, in)
 				convPos(caseNo, "file", in, fc.Files[mainFile], fc.LCoq, o.Pos)
 			}
+			lintJobs = append(lintJobs, lintJob{"file", caseNo, in, fc.Files, o.Verdict})
 			cf.Terms = append(cf.Terms, fmt.Sprintf("CFile %s %q %s %s %s %s", fc.Coq, refFilePath, o.Verdict, coqStrList(o.Main), coqStrList(o.Service), coqStrList(o.Topic)))
 			res.Cases = append(res.Cases, vh.CaseRec{Case: caseNo, Stream: "file", Input: in, Impl: o})
 			caseNo++
+		}
+	}
+
+	// ---- stream 1d: the lint / LSP entry points (LintFile of the main file on a fresh set, LintAll) on the packages of
+	// the streams above: same totality as CompilePackage (no panic, no hang), and a package that compiles is not failed
+	// by the lint path with a hard error (it converts and links the same file; it "reports, does not fail")
+	{
+		type lintPair struct{ File, All linted }
+		lres := parallel(len(lintJobs), "lintpath", caseNo,
+			func(i int) any { return map[string]any{"call": "LintFile + LintAll", "of": lintJobs[i].In} },
+			func(i int) lintPair {
+				return lintPair{lintOnce(lintJobs[i].Files, mainFile), lintAllOnce(lintJobs[i].Files)}
+			})
+		for i, j := range lintJobs {
+			res.Count("lintpath")
+			for _, cl := range []struct {
+				Call string
+				L    linted
+			}{{"LintFile", lres[i].File}, {"LintAll", lres[i].All}} {
+				l := cl.L
+				lin := map[string]any{"call": cl.Call, "file": mainFile, "files": j.Files, "of": j.In}
+				switch {
+				case l.TimedOut:
+					res.Fail(vh.Failure{Case: j.Case, Stream: j.Stream, Sig: fmt.Sprintf("C07 lint path (%s stream): %s hangs", j.Stream, cl.Call), Clause: "never hangs (lint path)", Input: lin, Got: "timeout"})
+				case l.Panic != nil:
+					res.Fail(vh.Failure{Case: j.Case, Stream: j.Stream, Sig: fmt.Sprintf("C07 lint path (%s stream): %s panic %s", j.Stream, cl.Call, errClass(fmt.Sprint(l.Panic))), Clause: "never panics (lint path)", Input: lin, Got: fmt.Sprint(l.Panic)})
+				case j.Verdict == "VOk" && l.Err != nil:
+					res.Count("lintpath_hard_err_on_accepted")
+					res.Fail(vh.Failure{Case: j.Case, Stream: j.Stream, Sig: fmt.Sprintf("C07 lint path (%s stream): %s fails on a package that compiles (%s)", j.Stream, cl.Call, truncate(errClass(l.Err.Error()), 60)), Clause: "every package within the documented language is accepted and links (lint / LSP path: reports, does not fail)", Input: lin, Got: l.Err.Error()})
+				case (j.Verdict == "VConvErr" || j.Verdict == "VLinkErr") && l.Err == nil && len(l.Pos) == 0:
+					res.Count("lintpath_silent_on_rejected")
+					res.Fail(vh.Failure{Case: j.Case, Stream: j.Stream, Sig: fmt.Sprintf("C07 lint path (%s stream): %s reports nothing on a package CompilePackage rejects", j.Stream, cl.Call), Clause: "returns descriptors or errors that carry a position (the lint path gives the verdict of the compile path)", Input: lin, Got: "no report, no error"})
+				case j.Verdict == "VOk" && len(l.Pos) > 0:
+					res.Count("lintpath_report_on_accepted")
+				default:
+					res.Count("lintpath_agree")
+				}
+			}
 		}
 	}
 
@@ -433,8 +485,11 @@ func runC07(cfg *vh.Config) error {
 		Pan any
 	}
 	type declRes struct {
-		C      compiled
-		Prints []printRes
+		C         compiled
+		Prints    []printRes
+		LintNames []string
+		Lints     []linted
+		All       linted
 	}
 	declAll := parallel(len(decls), "decl", caseNo,
 		func(i int) any { return map[string]any{"decl": decls[i].Name, "files": decls[i].Files} },
@@ -444,6 +499,16 @@ func runC07(cfg *vh.Config) error {
 				_, perr, ppan := safePrint(f)
 				r.Prints = append(r.Prints, printRes{perr, ppan})
 			}
+			// the lint / LSP entry points on the same valid declaration: LintFile of every j5s file (each on a
+			// fresh set) and LintAll. Declarations with several output files (entities, services and topics
+			// referring to types of their own file) take a path of their own through LintFile.
+			for _, fn := range sortedFileNames(decls[i].Files) {
+				if strings.HasSuffix(fn, ".j5s") {
+					r.LintNames = append(r.LintNames, fn)
+					r.Lints = append(r.Lints, lintOnce(decls[i].Files, fn))
+				}
+			}
+			r.All = lintAllOnce(decls[i].Files)
 			return r
 		})
 	for di, d := range decls {
@@ -467,6 +532,9 @@ func runC07(cfg *vh.Config) error {
 			if strings.Contains(c.Err.Error(), "listRequest is not supported on a method") {
 				sig = sigListRequest
 			}
+			if strings.Contains(c.Err.Error(), "integer rules: multipleOf is not implemented") {
+				sig = "C07 documented language not accepted: integer rules.multipleOf (not implemented)"
+			}
 			if strings.Contains(c.Err.Error(), "TimestampField_Rules") && strings.Contains(c.Err.Error(), "unsupported scalar type *schema_j5pb.Field_Timestamp") {
 				sig = "C07 documented language not accepted: timestamp rules minimum / maximum (unsupported scalar type)"
 			}
@@ -483,6 +551,31 @@ func runC07(cfg *vh.Config) error {
 					res.Fail(vh.Failure{Case: caseNo, Stream: "decl", Sig: fmt.Sprintf("C07 decl %s: printer error %s", d.Name, errClass(pr.Err.Error())), Clause: "accepted", Input: in, Got: pr.Err.Error()})
 				}
 			}
+		}
+		// the lint path on the same declaration: never panics or hangs; a package that compiles is not failed by the
+		// lint path with a hard error (LintFile / LintAll "report, not fail": the accepted package links there too)
+		{
+			lintJudge := func(call, file string, l linted) {
+				lin := map[string]any{"decl": d.Name, "files": d.Files, "call": call, "file": file}
+				switch {
+				case l.TimedOut:
+					res.Fail(vh.Failure{Case: caseNo, Stream: "decl", Sig: fmt.Sprintf("C07 decl %s: %s hangs", d.Name, call), Clause: "never hangs (lint path)", Input: lin, Got: "timeout"})
+				case l.Panic != nil:
+					res.Fail(vh.Failure{Case: caseNo, Stream: "decl", Sig: fmt.Sprintf("C07 decl %s: %s panic %s", d.Name, call, errClass(fmt.Sprint(l.Panic))), Clause: "never panics (lint path)", Input: lin, Got: fmt.Sprint(l.Panic)})
+				case l.Err != nil && c.Err == nil && c.Panic == nil && !c.TimedOut:
+					res.Count("decl_lint_hard_err")
+					res.Fail(vh.Failure{Case: caseNo, Stream: "decl", Sig: fmt.Sprintf("C07 decl %s: %s fails on a package that compiles (%s)", d.Name, call, truncate(errClass(l.Err.Error()), 60)), Clause: "every package within the documented language is accepted and links (lint / LSP path: reports, does not fail)", Input: lin, Got: l.Err.Error()})
+				case l.Err == nil && len(l.Pos) > 0 && c.Err == nil && c.Panic == nil && !c.TimedOut:
+					res.Count("decl_lint_report_on_accepted")
+					res.Sample(map[string]any{"stream": "decl", "decl": d.Name, "call": call, "lint_report_on_accepted_package": truncate(l.Human, 200)}, 6)
+				default:
+					res.Count("decl_lint_ok")
+				}
+			}
+			for li, l := range declAll[di].Lints {
+				lintJudge("LintFile", declAll[di].LintNames[li], l)
+			}
+			lintJudge("LintAll", "", declAll[di].All)
 		}
 		caseNo++
 	}
@@ -664,6 +757,11 @@ func runC07(cfg *vh.Config) error {
 		for i := 0; i < nMut && i < nMutFront; i++ {
 			add(mutContents[i][mainFile], "malformed: "+mutHow[i])
 		}
+		// ---- stream 10: valid bundles of C02's generator (harness/j5sgen): every package accepted; their texts join the walker stream
+		jt, jh := runJ5sGen(cfg, res, &caseNo, distinct)
+		for i := range jt {
+			add(jt[i], jh[i])
+		}
 		for _, t := range texts {
 			distinct.Add("front:" + t)
 		}
@@ -674,6 +772,10 @@ func runC07(cfg *vh.Config) error {
 		wt, wr := runWalk(cfg, res, &caseNo, texts, how)
 		wf.Terms = append(wf.Terms, wt...)
 		walkRecs = append(walkRecs, wr...)
+		// ---- stream 11: the same texts compiled alone, against the WHOLE front end with the walker model inside
+		ut, ur := runFull(cfg, res, &caseNo, texts, how)
+		wf.Terms = append(wf.Terms, ut...)
+		walkRecs = append(walkRecs, ur...)
 	}
 	// ---- stream 7: entity declarations against model/CmpbEntity.v (expansion by the ent family's model)
 	{
